@@ -846,6 +846,17 @@ def closure_reuse(ctx, world):
                         bad = (x, f"calls the mutating method .{x.func.attr}() on the captured `{x.func.value.id}`")
                     elif isinstance(x, ast.Name) and isinstance(x.ctx, ast.Load) and x.id in oneshot and x.id not in local and oneshot[x.id][1] is not clo:
                         bad = (x, f"consumes the one-shot iterator `{x.id}` created once at construction time (`{norm_text(oneshot[x.id][0])[:50]}`)")
+            if bad is None:
+                # A10.fresh: the closure hands out a buffer that was allocated ONCE at construction time
+                rets = [clo.body] if isinstance(clo, ast.Lambda) else [x.value for st in clo.body for x in ast.walk(st) if isinstance(x, ast.Return) and _encl(x) is clo and x.value is not None]
+                for rv in rets:
+                    if isinstance(rv, ast.Name) and rv.id not in local:
+                        for x in ast.walk(fn):
+                            if isinstance(x, ast.Assign) and len(x.targets) == 1 and isinstance(x.targets[0], ast.Name) and x.targets[0].id == rv.id and _encl(x) is not clo:
+                                v = x.value
+                                alloc = isinstance(v, ast.Call) and getattr(v.func, "attr", getattr(v.func, "id", "")) in ("zeros", "ones", "empty", "zeros_like", "ones_like", "empty_like", "full", "copy", "array", "randn")
+                                if alloc:
+                                    bad = (x, f"returns `{rv.id}`, one buffer allocated at construction time and handed out on every call")
             if bad:
                 ctx.fail("A10", inst, f"{label}|{norm_text(bad[0])[:80]}|{bad[1][:30]}", loc_of(mod, bad[0]), f"backward-time closure {bad[1]}: `{norm_text(bad[0])[:70]}`", "call the same VJP function twice (jacobian maps one vjp over a whole basis; hessian-vector products re-enter it): the second call sees the state left by the first")
             else:
